@@ -124,9 +124,11 @@ func StreamGUID() {
 
 func StaleGUID() {
 	k := vstub.Choose(0, 15)
-	tail := vstub.NondetBytes(k)
 	errv := vstub.NondetErr()
-	run := func(prior []byte) ([16]byte, error) {
+	// two runs with independent scratch pre-states AND independent delivered
+	// bytes: a wire position that was never delivered (>= k) must come back the
+	// same in both, whatever was read before and whatever the first k bytes were
+	run := func(prior, tail []byte) ([16]byte, error) {
 		data := append(append([]byte{}, prior...), tail...)
 		fr := vstub.NewFragReader(data)
 		fr.Full = true
@@ -137,10 +139,17 @@ func StaleGUID() {
 		got := iohelp.ReadGUID(r)
 		return got, r.Err
 	}
-	a, ea := run(vstub.NondetBytes(8))
-	b, eb := run(vstub.NondetBytes(8))
+	ta, tb := vstub.NondetBytes(k), vstub.NondetBytes(k)
+	a, ea := run(vstub.NondetBytes(8), ta)
+	b, eb := run(vstub.NondetBytes(8), tb)
 	vstub.Assert("GUID.stale.err", vstub.And(ea != nil, eb != nil))
-	vstub.Assert("GUID.stale.value", guidEq(a, b))
+	ok := true
+	for wire, j := range guidOrder {
+		if wire >= k {
+			ok = vstub.And(ok, a[j] == b[j])
+		}
+	}
+	vstub.Assert("GUID.stale.value", ok)
 	vstub.Reach("StaleGUID")
 }
 
